@@ -84,6 +84,19 @@ claim("C19",
       "Not decided: CommentToString's treatment of every comment layout (string function over unbounded input). Trusted: go/parser's attachment of doc comments.",
       "static analysis: field-access inventory over go/ast types, AST origin tracing of doc text, SSA dataflow of the prefix subject and of Command's results")
 
+claim("C01",
+      "Decides four necessary conditions for valid, non-clashing identifiers in emitted code: fresh-name discipline of every declaring emission (names from the allocator in scope or reserved literals; file-level allocator for generated "
+      "functions), the allocator's own contract (tested-and-inserted on every path to a return), totality of type rendering over go/types, and accessibility tests dominating every emitted member selector.",
+      "Not decided: that the emitted file type-checks in general; clashes with import aliases chosen by jennifer (D17); uniqueness of helper names across two output files of one package (D16, described in DESIGN.md, no sound local rule); "
+      "interface satisfaction. Trusted: jennifer renders identifiers verbatim.",
+      "static analysis: emission-chain enumeration with origin tracing of declared names, SSA dominance for the allocator contract and accessibility guards, switch exhaustiveness")
+
+claim("C03",
+      "Decides the `no silent acceptance` direction on every path of the generator: dispatcher agreement (overlap check, same rule table, Matches/Build on the same element, typeMismatch fall-through), non-nil mismatch errors, "
+      "opt-in gates and shape/identity predicates of every Matches as SSA path facts, error discipline in builder+generator with the single sanctioned ignoreMissing continuation, accessibility before selection, no rendering before all converters succeeded.",
+      "Not decided: the full iff over (source type, target type, settings) and that no documented conversion is rejected. Gate table in checker/c03.go is the documented behaviour.",
+      "static analysis: SSA path facts (conditions known true/false at each `return true`), error-flow path search, AST shape of the dispatchers")
+
 NOT_APPLICABLE_REASON = "rules for this property are designed (DESIGN.md §2) but the checker code is not built yet in this round; not claimed until it runs"
 
 def main():
